@@ -30,7 +30,7 @@ def units(tier):
     u = []
     # 311: a supercell dimension >= 3 has self-images that do not pair up on the Wigner-Seitz boundary, so the diagonal blocks of
     # the lattice sum are complex for force constants without permutation symmetry (Hermitisation is then not a no-op there)
-    for gid, sid in [("tric2", "211"), ("cscl", "211"), ("bccI", "111"), ("tet2", "111"), ("hex2", "111"), ("tric2", "311"), ("nacl8i", "111")]:
+    for gid, sid in [("tric2", "211"), ("cscl", "211"), ("bccI", "111"), ("tet2", "111"), ("hex2", "111"), ("tric2", "311"), ("nacl8i", "111"), ("cscl", "nd8")]:
         u.append(("basic", gid, sid, False))
     u.append(("basic", "tric2", "211", True))
     for gid, sid in [("cscl", "111"), ("tet2", "111"), ("hex2", "111"), ("cscl", "211"), ("bccI", "111")]:
